@@ -21,6 +21,8 @@ mod mimic_rng;
 mod preprocessing;
 mod sampling;
 pub mod vector;
+#[cfg(feature = "verif-hooks")]
+pub mod verif_hooks;
 
 /// Maximum number of edges supported by momtrop.
 pub const MAX_EDGES: usize = 64;
